@@ -137,19 +137,35 @@ impl Polytope {
 
         let mut pb = Problem::new(OptimizationDirection::Minimize);
 
+        // The solver works with absolute tolerances (1e-8): it ignores coefficients below that
+        // and accepts violations up to it. The objective and every constraint are therefore
+        // scaled so that their largest coefficient is 1; minimisers and feasible points are
+        // unchanged, but the tolerances then relate to the geometry instead of the arbitrary
+        // scale of a row.
+        let unit_scale = |max_abs: f64| {
+            if max_abs > 0.0 && max_abs.is_finite() {
+                max_abs
+            } else {
+                1.0
+            }
+        };
+        let cost_scale = unit_scale(cost_function.iter().fold(0f64, |acc, x| acc.max(x.abs())));
+
         // create the variables for the linear program (objective function + variable bounds)
         let vars: Vec<Variable> = cost_function
             .iter()
-            .map(|x| pb.add_var(*x, (f64::NEG_INFINITY, f64::INFINITY)))
+            .map(|x| pb.add_var(*x / cost_scale, (f64::NEG_INFINITY, f64::INFINITY)))
             .collect();
 
         // add linear constraints
         for (row, bias) in zip(self.mat.rows(), &self.bias) {
-            let constraint: Vec<(Variable, f64)> =
-                zip(&vars, row).map(|(var, coeff)| (*var, *coeff)).collect();
+            let scale = unit_scale(row.iter().fold(0f64, |acc, x| acc.max(x.abs())));
+            let constraint: Vec<(Variable, f64)> = zip(&vars, row)
+                .map(|(var, coeff)| (*var, *coeff / scale))
+                .collect();
 
             // set bias as upper bound (inclusive) of the linear constraint
-            pb.add_constraint(constraint.as_slice(), ComparisonOp::Le, *bias);
+            pb.add_constraint(constraint.as_slice(), ComparisonOp::Le, *bias / scale);
         }
 
         // print!("{:?}", solved.status());
